@@ -151,6 +151,16 @@ def modifier_cases():
     out = []
     for nm, mod in shapes.items():
         out.append(Case(f"MOD-{nm}", {"reactions": base, "network": {"ode_modifier": mod}}, tags={"modifier", "selfcheck"}))
+    # modifiers together with the thermal equation (n_eqns = n_spec + 1) on a bundled network
+    ex = os.path.join(REPO, "naunet", "examples")
+    prim = {"filelist": f"{ex}/primordial/primordial.krome", "fileformats": "krome", "elements": ["e", "H", "D", "He"], "pseudo_elements": ["Photon"], "cooling": ["CIC_HI", "RC_HII", "CEC_HeI"]}
+    tmods = {
+        "thermal-dep1": {"H2": {"factors": ["2.0"], "reactants": [["H"]]}, "He+": {"factors": ["-1.0"], "reactants": [["He"]]}},
+        "thermal-dep2": {"H+": {"factors": ["0.5"], "reactants": [["H", "e-"]]}, "HD": {"factors": ["3.0", "-2.0"], "reactants": [["H", "D"], ["H2", "D+"]]}},
+        "thermal-dep3": {"e-": {"factors": ["1.5"], "reactants": [["H", "H", "He"]]}, "D": {"factors": ["-0.5"], "reactants": [["H2+", "e-", "e-"]]}},
+    }
+    for nm, mod in tmods.items():
+        out.append(Case(f"MOD-{nm}", {"network": dict(prim, ode_modifier=mod)}, ref="meta", pseudo=["Photon"], tags={"modifier", "thermal", "selfcheck"}))
     return out
 
 
